@@ -197,6 +197,15 @@ def args_shard(spec, emit):
                         if b2[k] != a2[k]:
                             viols.append(dict(mechanism="path-modifies-input", estimator=est_name, argument=k,
                                               storage=ps["storage"], detail="%s changed during path" % k))
+                    # (e) a NEW, identically configured object fitted after that sweep: the sweep (which re-uses one
+                    # penalty object for all its alphas) must not have changed what the configuration means
+                    est_c = PB.build_estimator(ps, X.shape[1])
+                    est_c.fit(X, y)
+                    d4, v4 = PB.model_digest(est_c)
+                    if d4 != d1:
+                        viols.append(dict(mechanism="fit-after-path-differs-from-fresh-fit", estimator=est_name,
+                                          storage=ps["storage"],
+                                          detail="fresh %s vs after a path sweep: %s" % (str(v1)[:120], str(v4)[:120])))
         except Exception as e:
             viols.append(dict(mechanism="fit-raises", estimator=est_name, exc=type(e).__name__, storage=ps["storage"],
                               detail=repr(e)[:250]))
